@@ -99,8 +99,9 @@ For every environment, every wire type `w` and expected type `e` such that withi
 or service reference, no placeholder, and records and variants list their fields by strictly ascending id (`OKW`,
 `OKE`: what the header parser guarantees of a type table and the checker of a program; on the wire a variant case of
 type `null` is spelled `null`), every canonical value `v` of `w` (`canon`), the bytes the value writer produces for
-`v` followed by any `r`, a decoder state with nothing metered and an input shorter than 2⁶⁴/11 bytes, and **every pair
-of depth budgets** `n`, `m`: unless one of the two runs out of its budget (`err limit`),
+`v` followed by any `r`, a decoder state with nothing metered, and **every pair of depth budgets** `n`, `m`: unless one
+of the two stops at a limit of the host (`err limit`: a depth budget ran out, or a vector announces a length whose
+per-element cost does not fit a machine word, "Vec length overflow"),
 
 * the coercion returns `v'` and the decoder returns `v'`, leaving exactly `r` and the rest of its state untouched, or
 * the coercion fails with a subtype error and the decoder fails with a subtype error — the kind an enclosing option
@@ -111,18 +112,18 @@ Not covered: reference types (their check is C05's), non-minimal (padded) LEB128
 never produces, and the argument sequence around the values (correspondence only). -/
 theorem decoding_a_wellformed_value_is_its_coercion (env : Env) (m n : Nat) (w e : Ty) (v : Val) (cf sf : Nat)
     (bs r : Bytes) (s : St) (hc : canon env cf v w = true) (hs : serVal sf v = .ok bs) (hin : s.input = bs ++ r)
-    (hu : Unmetered s) (hw : OKW env w) (he : OKE env e) (hsm : Small s) :
+    (hu : Unmetered s) (hw : OKW env w) (he : OKE env e) :
     CoRel (coerce env false env n w e v) (deAny env .idl m w e s) s r :=
-  typed_read env m n w e v cf sf bs r s hc hs hin hu hw he hsm
+  typed_read env m n w e v cf sf bs r s hc hs hin hu hw he trivial
 
 open Candid.De in
 /-- read off: what the coercion returns, the decoder returns, and leaves what followed -/
 theorem coercible_value_is_accepted_with_its_coercion (env : Env) (m n : Nat) (w e : Ty) (v v' : Val) (cf sf : Nat)
     (bs r : Bytes) (s : St) (hc : canon env cf v w = true) (hs : serVal sf v = .ok bs) (hin : s.input = bs ++ r)
-    (hu : Unmetered s) (hw : OKW env w) (he : OKE env e) (hsm : Small s)
+    (hu : Unmetered s) (hw : OKW env w) (he : OKE env e)
     (hco : coerce env false env n w e v = .ok v') :
     deAny env .idl m w e s = .err .limit ∨ deAny env .idl m w e s = .ok v' { s with input := r } := by
-  rcases typed_read env m n w e v cf sf bs r s hc hs hin hu hw he hsm with h | h | h
+  rcases typed_read env m n w e v cf sf bs r s hc hs hin hu hw he trivial with h | h | h
   · rw [hco] at h; simp at h
   · exact Or.inl h
   · rw [hco] at h
@@ -136,10 +137,10 @@ open Candid.De in
 /-- … what does not coerce is rejected with the error an enclosing option catches -/
 theorem incoercible_value_is_a_subtype_failure (env : Env) (m n : Nat) (w e : Ty) (v : Val) (cf sf : Nat)
     (bs r : Bytes) (s : St) (hc : canon env cf v w = true) (hs : serVal sf v = .ok bs) (hin : s.input = bs ++ r)
-    (hu : Unmetered s) (hw : OKW env w) (he : OKE env e) (hsm : Small s)
+    (hu : Unmetered s) (hw : OKW env w) (he : OKE env e)
     (hco : coerce env false env n w e v = .err .subtype) :
     deAny env .idl m w e s = .err .limit ∨ deAny env .idl m w e s = .sub none none := by
-  rcases typed_read env m n w e v cf sf bs r s hc hs hin hu hw he hsm with h | h | h
+  rcases typed_read env m n w e v cf sf bs r s hc hs hin hu hw he trivial with h | h | h
   · rw [hco] at h; simp at h
   · exact Or.inl h
   · rw [hco] at h
@@ -153,10 +154,10 @@ open Candid.De in
 /-- … and conversely: what the decoder returns for a well-formed value is what the coercion returns -/
 theorem accepted_value_is_the_coercion (env : Env) (m n : Nat) (w e : Ty) (v v' : Val) (cf sf : Nat)
     (bs r : Bytes) (s s1 : St) (hc : canon env cf v w = true) (hs : serVal sf v = .ok bs) (hin : s.input = bs ++ r)
-    (hu : Unmetered s) (hw : OKW env w) (he : OKE env e) (hsm : Small s)
+    (hu : Unmetered s) (hw : OKW env w) (he : OKE env e)
     (hd : deAny env .idl m w e s = .ok v' s1) :
     coerce env false env n w e v = .err .limit ∨ (coerce env false env n w e v = .ok v' ∧ s1 = { s with input := r }) := by
-  rcases typed_read env m n w e v cf sf bs r s hc hs hin hu hw he hsm with h | h | h
+  rcases typed_read env m n w e v cf sf bs r s hc hs hin hu hw he trivial with h | h | h
   · exact Or.inl h
   · rw [hd] at h; simp at h
   · rw [hd] at h
@@ -170,9 +171,9 @@ open Candid.De in
 backtracks, a record with surplus fields and `reserved` rely on), at every depth budget -/
 theorem skipping_a_wellformed_value_consumes_it (env : Env) (m : Nat) (w : Ty) (v : Val) (cf sf : Nat) (bs r : Bytes) (s : St)
     (hc : canon env cf v w = true) (hs : serVal sf v = .ok bs) (hin : s.input = bs ++ r) (hu : Unmetered s)
-    (hw : OKW env w) (hsm : Small s) :
+    (hw : OKW env w) :
     deIgnored env m w s = .err .limit ∨ ∃ x, deIgnored env m w s = .ok x { s with input := r } :=
-  (skip_all env m).1 w v cf sf bs r s hc hs hin hu hw hsm
+  (skip_all env m).1 w v cf sf bs r s hc hs hin hu hw trivial
 
 open Candid.De in
 /-- the hypotheses on the types can be checked by evaluation: it is enough that everything written in the type and in
@@ -203,8 +204,7 @@ cycles and of reference types, neither of which occurs here).  For every byte st
 accepts, every caller environment and non-empty sequence of expected types, when what follows the header is what the
 value writer produces for canonical values `vs` of the declared argument types (one per type, nothing after them),
 the declared and the expected types meet the conditions of `decoding_a_wellformed_value_is_its_coercion`, the working
-environment has fewer than 99 998 entries and the body is shorter than 2⁶⁴/11 bytes: unless one side runs out of its
-depth budget, both return the same values — the coerced arguments, `null` for expected arguments the message does not
+environment has fewer than 99 998 entries: unless one side stops at a host limit, both return the same values — the coerced arguments, `null` for expected arguments the message does not
 have, surplus arguments skipped — or both fail. -/
 theorem decoding_a_written_message_is_the_specification (bs : Bytes) (env : Env) (expected : List Ty) (hd : Header)
     (body : Bytes) (vs : List Val) (cf sf : Nat) (bss : List Bytes) (hp : parseHeader bs = .ok (hd, body))
@@ -213,11 +213,11 @@ theorem decoding_a_written_message_is_the_specification (bs : Bytes) (env : Env)
     (hm : mapOutcomes (serVal sf) vs = .ok bss) (hb : body = bss.flatten)
     (hokw : ∀ w ∈ hd.args, OKW (mergeEnv hd.table env expected).1 w)
     (hoke : ∀ e ∈ (mergeEnv hd.table env expected).2, OKE (mergeEnv hd.table env expected).1 e)
-    (hlen : (mergeEnv hd.table env expected).1.length + 2 ≤ De.defaultFuel) (hsm : body.length * 11 ≤ usizeMax)
+    (hlen : (mergeEnv hd.table env expected).1.length + 2 ≤ De.defaultFuel)
     (hcf : cf ≤ Wire.defaultFuel) (hsf : sf ≤ Wire.defaultFuel) :
     ArgRel (decodeArgs bs env expected false false) (decodeWithConfig bs env expected ⟨none, none⟩) := by
   rw [spec_decode_written bs env expected hd body vs cf sf bss hp hl hc hm hb hcf hsf]
-  exact message_rel bs env expected hd body vs cf sf Wire.defaultFuel bss hp hne hl hc hm hb hokw hoke hlen hsm
+  exact message_rel bs env expected hd body vs cf sf Wire.defaultFuel bss hp hne hl hc hm hb hokw hoke hlen
 
 open Candid.De in
 /-- the argument sequence on its own, at every budget of the coercion -/
@@ -225,9 +225,9 @@ theorem decoding_written_arguments_is_their_coercion (env : Env) (hlen : env.len
     (es ws : List Ty) (vs : List Val) (cf sf : Nat) (bss : List Bytes) (s : St)
     (hl : vs.length = ws.length) (hc : ∀ p ∈ vs.zip ws, canon env cf p.1 p.2 = true)
     (hm : mapOutcomes (serVal sf) vs = .ok bss) (hin : s.input = bss.flatten) (hu : Unmetered s)
-    (hokw : ∀ w ∈ ws, OKW env w) (hoke : ∀ e ∈ es, OKE env e) (hsm : Small s) :
+    (hokw : ∀ w ∈ ws, OKW env w) (hoke : ∀ e ∈ es, OKE env e) :
     ArgRel (coerceArgs env n false env ws vs es) (argLoop env es ws s []) := by
-  have := args_rel env hlen n es ws vs cf sf bss s [] hl hc hm hin hu hokw hoke hsm
+  have := args_rel env hlen n es ws vs cf sf bss s [] hl hc hm hin hu hokw hoke trivial
   have hid : (fun (x : List Val) => ([] : List Val).reverse ++ x) = id := by funext x; simp
   rw [hid] at this
   have hmap : ∀ (x : Outcome (List Val)), x.map id = x := by intro x; cases x <;> rfl
@@ -245,15 +245,15 @@ depth budget, the decoder returns the coercion of `v` and leaves exactly `r`, or
 both fail. -/
 theorem decoding_any_wellformed_value_is_its_coercion (env : Env) (m n : Nat) (w e : Ty) (v : Val) (f : Nat)
     (r : Bytes) (s : St) (hd : decVal env f w s.input = .ok (v, r)) (hu : Unmetered s) (hw : OKW env w) (he : OKE env e)
-    (hsm : Small s) : CoRel (coerce env false env n w e v) (deAny env .idl m w e s) s r :=
-  typed_read_w env m n w e v f r s hd hu hw he hsm
+    : CoRel (coerce env false env n w e v) (deAny env .idl m w e s) s r :=
+  typed_read_w env m n w e v f r s hd hu hw he trivial
 
 open Candid.De in
 /-- skipping any well-formed value consumes exactly what the specification's reader consumes -/
 theorem skipping_any_wellformed_value_consumes_it (env : Env) (m : Nat) (w : Ty) (v : Val) (f : Nat) (r : Bytes) (s : St)
-    (hd : decVal env f w s.input = .ok (v, r)) (hu : Unmetered s) (hw : OKW env w) (hsm : Small s) :
+    (hd : decVal env f w s.input = .ok (v, r)) (hu : Unmetered s) (hw : OKW env w) :
     deIgnored env m w s = .err .limit ∨ ∃ x, deIgnored env m w s = .ok x { s with input := r } :=
-  (skip_all_w env m).1 w v f r s hd hu hw hsm
+  (skip_all_w env m).1 w v f r s hd hu hw trivial
 
 open Candid.De in
 /-- **Every well-formed message is decoded exactly as the specification prescribes** (no quota configured): for every
@@ -269,10 +269,10 @@ theorem decoding_a_wellformed_message_is_the_specification (bs : Bytes) (env : E
     (hda : decArgs (mergeEnv hd.table env expected).1 Wire.defaultFuel hd.args body = .ok (vs, []))
     (hokw : ∀ w ∈ hd.args, OKW (mergeEnv hd.table env expected).1 w)
     (hoke : ∀ e ∈ (mergeEnv hd.table env expected).2, OKE (mergeEnv hd.table env expected).1 e)
-    (hlen : (mergeEnv hd.table env expected).1.length + 2 ≤ De.defaultFuel) (hsm : body.length * 11 ≤ usizeMax) :
+    (hlen : (mergeEnv hd.table env expected).1.length + 2 ≤ De.defaultFuel) :
     ArgRel (decodeArgs bs env expected false false) (decodeWithConfig bs env expected ⟨none, none⟩) := by
   rw [spec_decode_accepted bs env expected hd body vs hp hda]
-  exact message_rel_w bs env expected hd body vs Wire.defaultFuel Wire.defaultFuel hp hne hda hokw hoke hlen hsm
+  exact message_rel_w bs env expected hd body vs Wire.defaultFuel Wire.defaultFuel hp hne hda hokw hoke hlen
 
 open Candid.De in
 /-- non-vacuity: a padded length and a padded number are read by the specification's reader (`vec nat`, one element,
